@@ -129,4 +129,101 @@ theorem seq_requests_fail (s : W) (h : s.writeErr.isSome) :
 example : (writeControl (newW true 16 false false) 8 [3, 232] 0).2.writeErr = some .closeSent ∧
     (writeControl (newW true 16 false false) 8 [3, 232] 0).2.wire = [136, 2, 3, 232] := by decide
 
+/-! ### non-vacuity -/
+section NonVacuity
+set_option linter.defProp false
+
+/-! two threads: thread 0 writes a data frame (thread 1 starts waiting meanwhile), then a close
+    frame, and releases; thread 1 then acquires the mutex -/
+def witG1 : G := { init with phase := upd init.phase 0 .waiting }
+def witG2 : G := { witG1 with holder := some 0, phase := upd witG1.phase 0 .lockedUnchecked }
+def witG3 : G := { witG2 with phase := upd witG2.phase 0 .lockedChecked }
+def witG4 : G := { witG3 with phase := upd witG3.phase 1 .waiting }
+def witG5 : G := { witG4 with phase := upd witG4.phase 0 .deadlineSet }
+def witG6 : G := { witG5 with wire := witG5.wire ++ [false], phase := upd witG5.phase 0 (.wrote false) }
+def witG7 : G := { witG6 with writeErr := witG6.writeErr || false, phase := upd witG6.phase 0 .marked }
+def witG8 : G := { witG7 with holder := none, phase := upd witG7.phase 0 .idle }
+def witG9 : G := { witG8 with phase := upd witG8.phase 0 .waiting }
+def witG10 : G := { witG9 with holder := some 0, phase := upd witG9.phase 0 .lockedUnchecked }
+def witG11 : G := { witG10 with phase := upd witG10.phase 0 .lockedChecked }
+def witG12 : G := { witG11 with phase := upd witG11.phase 0 .deadlineSet }
+def witG13 : G := { witG12 with wire := witG12.wire ++ [true], phase := upd witG12.phase 0 (.wrote true) }
+def witG14 : G := { witG13 with writeErr := witG13.writeErr || true, phase := upd witG13.phase 0 .marked }
+def witG15 : G := { witG14 with holder := none, phase := upd witG14.phase 0 .idle }
+def witG16 : G := { witG15 with holder := some 1, phase := upd witG15.phase 1 .lockedUnchecked }
+def witG17 : G := { witG16 with holder := none, phase := upd witG16.phase 1 .idle }
+
+def witR1 : Reach witG1 := .step .init (.want init 0 rfl)
+def witR2 : Reach witG2 := .step witR1 (.acquire witG1 0 rfl rfl)
+def witR3 : Reach witG3 := .step witR2 (.checkOk witG2 0 rfl rfl)
+def witR4 : Reach witG4 := .step witR3 (.want witG3 1 rfl)
+def witR5 : Reach witG5 := .step witR4 (.deadlineOk witG4 0 rfl)
+def witR6 : Reach witG6 := .step witR5 (.writeOk witG5 0 false rfl)
+def witR7 : Reach witG7 := .step witR6 (.mark witG6 0 false rfl)
+def witR8 : Reach witG8 := .step witR7 (.release witG7 0 rfl)
+def witR9 : Reach witG9 := .step witR8 (.want witG8 0 rfl)
+def witR10 : Reach witG10 := .step witR9 (.acquire witG9 0 rfl rfl)
+def witR11 : Reach witG11 := .step witR10 (.checkOk witG10 0 rfl rfl)
+def witR12 : Reach witG12 := .step witR11 (.deadlineOk witG11 0 rfl)
+def witR13 : Reach witG13 := .step witR12 (.writeOk witG12 0 true rfl)
+def witR14 : Reach witG14 := .step witR13 (.mark witG13 0 true rfl)
+def witR15 : Reach witG15 := .step witR14 (.release witG14 0 rfl)
+def witR16 : Reach witG16 := .step witR15 (.acquire witG15 1 rfl rfl)
+def witS16 : Step witG16 witG17 := .checkFail witG16 1 rfl rfl
+
+/-- the wire of the witness state: a data frame, then the close frame -/
+example : witG16.wire = [false, true] := rfl
+
+/-- non-vacuity of `reach_inv`: a 16-step schedule of two threads is reachable -/
+example : Inv witG16 := reach_inv witR16
+/-- non-vacuity of `close_is_last`: the reachable state `witG16` has wire [data, close] -/
+example : CloseLast [false, true] := close_is_last witR16
+/-- non-vacuity of `no_byte_after_close`: reachable `witG16` with a close frame on the wire and a
+    further step (thread 1 fails the error check) -/
+example : witG17.wire = [false, true] := no_byte_after_close witR16 witS16 (by decide)
+/-- non-vacuity of `no_byte_after_close`, second instance: the closer's own `mark` step -/
+example : witG14.wire = [false, true] := no_byte_after_close witR13 (.mark witG13 0 true rfl) (by decide)
+/-- non-vacuity of `writeErr_after_close_released`: `witG15` = thread 0 has written the close frame and
+    released the mutex -/
+example : witG15.writeErr = true := writeErr_after_close_released witR15 (by decide) rfl
+/-- non-vacuity of `only_checkFail_after_close`: in `witG16` a close is on the wire, thread 1 is in phase
+    `.lockedUnchecked`, and the step `witS16` leaves that phase -/
+example : witG17.phase 1 = .idle ∧ witG17.wire = witG16.wire :=
+  only_checkFail_after_close witR16 (by decide) 1 rfl witS16 (by decide)
+
+
+/-! sequential witnesses -/
+
+/-- a client connection with a 4096-byte write buffer and a masking-key source -/
+def witW0 : W := { newW false 4096 false false with keys := [0x37, 0xfa, 0x21, 0x3d, 1, 2, 3, 4] }
+/-- … after it sent a close frame (status 1000) via WriteControl -/
+def witWc : W := (writeControl witW0 8 [3, 232] 0).2
+/-- witness for `seq_nothing_after_close` / `seq_requests_fail`: the sticky error is set -/
+def witWc_err : witWc.writeErr.isSome := by decide
+def witOps : List Op :=
+  [.writeMessage 1 [104, 101, 108, 108, 111] [] [] [] [],
+   .writeControl 9 [112, 105, 110, 103] 0,
+   .nextWriter 2 [] []]
+
+/-- non-vacuity of `seq_nothing_after_close`: a three-operation program (WriteMessage "hello", ping,
+    NextWriter) on the client that has sent a close -/
+example : (run witWc witOps).wire = witWc.wire ∧ (run witWc witOps).tcalls = witWc.tcalls ∧
+    (run witWc witOps).writeErr = witWc.writeErr := seq_nothing_after_close witWc witOps witWc_err
+
+def witClose : Bytes := controlFrame false 8 [3, 232] (newKey witW0).1
+/-- witness for `close_sets_sticky`: the masked close frame is written without error -/
+def witClose_ok : (connWrite witW0 8 0 witClose []).1 = none := by decide
+/-- non-vacuity of `close_sets_sticky`: Conn.write of a masked close frame on the 4096-byte client -/
+example : (connWrite witW0 8 0 witClose []).2.writeErr.isSome :=
+  close_sets_sticky witW0 0 witClose [] witClose_ok
+/-- concrete value for the `close_sets_sticky` witness -/
+example : (connWrite witW0 8 0 witClose []).2.writeErr = some .closeSent := by decide
+
+/-- non-vacuity of `seq_requests_fail`: NextWriter after the close fails -/
+example : ∃ e, (nextWriter witWc 1 [] []).1 = .error e := (seq_requests_fail witWc witWc_err).1 1 [] []
+/-- non-vacuity of `seq_requests_fail`: a ping after the close fails -/
+example : (writeControl witWc 9 [112, 105, 110, 103] 0).1.isSome :=
+  (seq_requests_fail witWc witWc_err).2.2.2.1 9 [112, 105, 110, 103] 0
+end NonVacuity
+
 end WS.Props.C09
